@@ -10,3 +10,4 @@ import Proofs.C04Ctx
 import Proofs.C04Cmp
 import Proofs.C04Date
 import Proofs.C04Spec17
+import Proofs.C04Order
